@@ -551,7 +551,8 @@ def layer_lines(case, obs, layer=None):
 
 def extra_lines(case, obs):
     """free-standing model evaluations on numbers taken from the run: numeric extrusions (`arExtrude` on the real A, B,
-    stencil, normals, screen) and `phase_for` (`phaseFor` on pixels of the achromatic screen)"""
+    stencil, normals, screen), the same extrusion on labels (`extrude`: where the old floats go) and `phase_for`
+    (`phaseFor` on pixels of the achromatic screen)"""
     lines, want = [], []
     mat = lambda M: ';'.join(rat_list([float(x) for x in row]) for row in M)
     for o in obs:
@@ -560,6 +561,12 @@ def extra_lines(case, obs):
                 cap['w'], case['nx'], case['ny'], rat(cap['amp']), rat_list([float(x) for x in cap['before']]),
                 ','.join(str(i) for i in cap['idx']), rat_list([float(x) for x in cap['rnd']]), mat(cap['A']), mat(cap['B'])))
             want.append(('ar', cap))
+            # the list surgery alone, on labels: old samples 0..n-1, the new row/column n..n+k-1
+            n = case['nx'] * case['ny']
+            kk = case['ny'] if cap['w'] in ('left', 'right') else case['nx']
+            lines.append('C15 extrude %s %d %d [%s] [%s]' % (cap['w'], case['nx'], case['ny'], ','.join(str(n + i) for i in range(kk)),
+                                                           ','.join(str(i) for i in range(n))))
+            want.append(('ext', cap))
     n = 0
     for o in obs:
         if o['op'][0] == 'read' and o['status'] == 'ok' and float(o['op'][1]) != 1.0 and n < 2:
@@ -585,6 +592,14 @@ def compare_extra(ctx, case, want, out):
                 ctx.disagree('C15 arext', {'case': case, 'where': w['w'], 'flat_index': j,
                                            'model': 'A.stencil + B.normals*sqrt(Cn^2), then the stacking: %r' % (got[j] if j >= 0 else got.size),
                                            'impl': '%r' % (ref[j] if j >= 0 else ref.size)}, key='inf-extrude-numeric'); return
+        elif kind == 'ext':
+            perm = [int(x) for x in parse_rat_list(resp.split()[1])]
+            before, after = w['before'], w['after']
+            ctx.count('infinite:extrusions re-done by the model on labels (extrude)')
+            bad = len(perm) != after.size or any(after[j] != before[q] for j, q in enumerate(perm) if q < before.size)
+            if bad:
+                ctx.disagree('C15 extrude', {'case': case, 'where': w['w'], 'model': 'old samples move to %r...' % perm[:12],
+                                             'impl': 'the floats of the screen before the extrusion are elsewhere'}, key='inf-extrude-surgery'); return
         else:
             got = float(Fraction(resp.split()[1]))
             ctx.count('phase_for pixels run by the model (phaseFor)')
